@@ -300,12 +300,12 @@ ParseVersion(S0) ==
                   back(S) == [S EXCEPT !.pos = 1]
               IN IF v.ok /\ VersionOf(v.v.params[1], v.v.params[2]) # 0
                  THEN Ok(back(v.S), VersionOf(v.v.params[1], v.v.params[2]))
-                 ELSE LET l == Log(back(v.S), Diag(IF v.ok THEN "InvalidVersion" ELSE "MissingVersionInfo", 0, "")) IN
+                 ELSE LET l == Log(back(v.S), Diag(IF v.ok THEN "InvalidVersion" ELSE "MissingVersionInfo", -1, "")) IN
                       IF l.ok THEN Ok(l.S, 171) ELSE l
          ELSE LET S1 == [(IF i.ok THEN i.S ELSE i.S) EXCEPT !.pos = 1]
-                  l == Log(S1, Diag("MissingVersionInfo", 0, "")) IN
+                  l == Log(S1, Diag("MissingVersionInfo", -1, "")) IN
               IF l.ok THEN Ok(l.S, 151) ELSE l
-    ELSE LET l == Log(S0, Diag("MissingVersionInfo", 0, "")) IN IF l.ok THEN Ok(l.S, 151) ELSE l
+    ELSE LET l == Log(S0, Diag("MissingVersionInfo", -1, "")) IN IF l.ok THEN Ok(l.S, 151) ELSE l
 
 \* the whole run: [ok, diags, tree] or [ok |-> FALSE, e, diags]
 Run ==
